@@ -109,14 +109,18 @@ C02_Milestone(I, R, t) ==
 
 ---------------------------------------------------------------------------
 (* C03 -- no over-allocation (ledger clauses) *)
+(* a row that names a task or a resource of another schedule has t = 0 / r = 0 *)
+OwnRow(I, R, j) == R.rows[j].t \in Tasks(I) /\ R.rows[j].r \in DOMAIN I.resources
 C03_Row(I, R, j) ==
     LET w == R.rows[j] IN
+    /\ OwnRow(I, R, j)
     /\ QPos(w.u)
     /\ w.t \in LeafSet(I) /\ w.r = ResOf(I, w.t)
     /\ QPos(Cap(I, w.r, w.d))
 C03_Capacity(I, R) ==
     \A j \in RowIdx(R) :
         LET w == R.rows[j] IN
+        ~OwnRow(I, R, j) \/
         IF I.balance THEN QLeq(Booked(R, w.r, w.d), Cap(I, w.r, w.d))
                      ELSE QLeq(BookedBy(R, w.r, w.d, w.t), Cap(I, w.r, w.d))
 
@@ -201,7 +205,7 @@ ExtMissing(I)  == \E t \in Tasks(I) : \E p \in PreOf(I, t) :
 FutureEnd(I)   == I.dir = "fwd" /\ \E t \in Tasks(I) : EndFixed(I, t) /\ I.tasks[t].fend > I.now
 (* a needed resource that never offers capacity inside [lo, hi] (days); the harness only builds such *)
 (* calendars with NO capacity outside the window either                                              *)
-NeedsResource(I, t) == IsLeaf(I, t) /\ ~IsMs(I, t) /\ ~Completed(I, t)
+NeedsResource(I, t) == IsLeaf(I, t) /\ ~IsMs(I, t) /\ ~Completed(I, t) /\ QPos(Need(I, t))
 DeadResource(I, lo, hi) ==
     \E t \in Tasks(I) : NeedsResource(I, t) /\ I.resources[ResOf(I, t)].never
                         /\ \A d \in lo..hi : ~QPos(Cap(I, ResOf(I, t), d))
